@@ -4,6 +4,7 @@ package props
 
 import (
 	"bytes"
+	"encoding/binary"
 	"fmt"
 	"strings"
 	"testing"
@@ -224,6 +225,16 @@ func c04prop(ev *evid.Rec) func(rt *rapid.T) {
 			fs = append(fs, hlref.F(hlref.FVersion, hlref.BE16(190)))
 		}
 		first := hlref.Tran{Type: tranType, ID: firstID, Fields: fs}.Encode()
+		// the header carries two size words: the total size frames the transaction; the size of "this part" equals it for
+		// every single-part transaction, but it is not what delimits the bytes - a login is a login whatever it says
+		if sw := rapid.SampledFrom([]string{"equal", "equal", "equal", "zero", "minus1", "plus16"}).Draw(rt, "dataSizeWord"); sw != "equal" && len(first) >= 20 {
+			total := int(binary.BigEndian.Uint32(first[12:16]))
+			v := map[string]int{"zero": 0, "minus1": total - 1, "plus16": total + 16}[sw]
+			if v < 0 {
+				v = 0
+			}
+			binary.BigEndian.PutUint32(first[16:20], uint32(v))
+		}
 		truncFirst := rapid.IntRange(0, 9).Draw(rt, "truncFirst") == 0
 		if truncFirst {
 			first = first[:rapid.IntRange(0, len(first)-1).Draw(rt, "firstlen")]
